@@ -269,3 +269,48 @@ func C14_Recommit() {
 		vAuditReads(it, h.p, h.vers[v], "recommit:old")
 	}
 }
+
+var _ = vReg("C14_LoadOutside", C14_LoadOutside)
+
+// C14_LoadOutside: loading or querying a version outside the range fails (or returns nil for
+// GetVersioned) and leaves the tree usable; loading any retained version succeeds.
+func C14_LoadOutside() {
+	cfg, maxV, maxW := c04cfg("C14_LoadOutside")
+	cfg.thresh = []int{0}
+	cfg.caches = []int{10000}
+	h := vStartHist(cfg)
+	h.vBuildVersions(maxV, maxW)
+	if h.latest >= 2 && vChoice("prune", 2) == 1 {
+		h.doPrune()
+	}
+	// a version number around the range
+	v := h.first - 2 + int64(vChoice("version", int(h.latest-h.first)+5))
+	if v < 0 {
+		v = h.latest + 3
+	}
+	in := v >= h.first && v <= h.latest
+	if h.f2RegionFor(v) {
+		vRegion("F2:deleted-version-still-loadable-because-its-root-node-is-still-live")
+	}
+	lv, err := h.tree.LoadVersion(v)
+	if in {
+		vAssert(err == nil, "c14:loadversion-retained-err")
+		vAssert(lv == h.latest, "c14:loadversion-returns-latest")
+		vAuditReads(h.tree, h.p, h.vers[v], "c14:loaded")
+		vCover("loaded-retained")
+	} else if v == 0 {
+		// LoadVersion(0) means "latest"
+		vAssert(err == nil && lv == h.latest, "c14:loadversion-zero-is-latest")
+	} else {
+		vAssert(err != nil, "c14:loadversion-outside-range-accepted")
+		vRegion("")
+		// the tree is still usable: it still answers as before and can commit
+		h.checkVersions("c14:after-failed-load")
+		vAuditReads(h.tree, h.p, h.work, "c14:after-failed-load")
+		h.doSet(vChoice("key", h.p.n))
+		h.doCommit()
+		h.checkVersions("c14:after-failed-load-commit")
+		vCover("load-rejected")
+	}
+	vRegion("")
+}
